@@ -58,11 +58,11 @@ def pbDecryptFull (alg : Bytes) (data password : Bytes) : R Bytes := do
     | _ => .error .other
   if oid ≠ oidPbe3DES ∧ oid ≠ oidPbeRC2_40 then .error .notImpl
   let params ← match rest with
-    | [(0x30, params)] => pure params
+    | (0x30, params) :: _ => pure params
     | _ => .error .other
   let pc ← opt (children params)
   let (salt, iter) ← match pc with
-    | [(0x04, salt), (0x02, it)] => pure (salt, derInt it)
+    | (0x04, salt) :: (0x02, it) :: _ => pure (salt, derInt it)
     | _ => .error .other
   if iter < 0 ∨ iter > maxIterations then .error .notImpl
   let iv := pbkdf salt password iter.toNat 2 8
@@ -137,7 +137,11 @@ def keyFromPkcs8 (p8 : Bytes) : Option (Bytes × Bool) := do
     let ac ← children alg
     match ac with
     | (0x06, oid) :: ps =>
-      if oid = oidRsa then some (inner, true)              -- RSAPrivateKey (PKCS#1), canonical DER
+      if oid = oidRsa then do                              -- RSAPrivateKey (PKCS#1): version and eight INTEGERs
+        let (t1, rb, r1) ← tlv inner
+        let rc ← children rb
+        if t1 ≠ 0x30 ∨ !r1.isEmpty ∨ rc.length < 9 ∨ rc.any (fun x => x.1 ≠ 0x02) then none
+        some (inner, true)
       else if oid = oidEd25519 then some (p8, false)       -- Decode returns it; ToPEM refuses the key type
       else if oid = oidEcPublicKey then do
         let curve ← match ps with
@@ -158,9 +162,10 @@ def keyFromPkcs8 (p8 : Bytes) : Option (Bytes × Bool) := do
 
 def rawBag (bag : Bytes) : Option RawBag := do
   let bc ← children bag
+  -- encoding/asn1 fills struct fields in order and ignores further elements of a SEQUENCE; the attribute SET is optional
   match bc with
-  | [(0x06, oid), (0xa0, w)] => some ⟨oid, w, none⟩
-  | [(0x06, oid), (0xa0, w), (0x31, a)] => some ⟨oid, w, some a⟩
+  | (0x06, oid) :: (0xa0, w) :: (0x31, a) :: _ => some ⟨oid, w, some a⟩
+  | (0x06, oid) :: (0xa0, w) :: _ => some ⟨oid, w, none⟩
   | _ => none
 
 /-- decodeCertBag / decodePkcs8ShroudedKeyBag on one bag. `none` in the result = a bag type the
@@ -168,20 +173,23 @@ def rawBag (bag : Bytes) : Option RawBag := do
     by the code with errors.New, so it loses its class. -/
 def decodeBag (b : RawBag) (password : Bytes) : R (Option BagOut) := do
   if b.oid = oidCertBag then
-    let (_, cb, _) ← opt (tlv b.value)
+    -- bag.Value is a RawValue: its Bytes are the whole contents of [0], unmarshalled strictly (no trailing data)
+    let (_, cb, rest) ← opt (tlv b.value)
+    if !rest.isEmpty then .error .other
     let cc ← opt (children cb)
     match cc with
-    | [(0x06, ct), (0xa0, w2)] =>
+    | (0x06, ct) :: (0xa0, w2) :: _ =>
       if ct ≠ oidX509Cert then .error .notImpl else
       let (t, cert, _) ← opt (tlv w2)
       if t ≠ 0x04 then .error .other else
       pure (some ⟨"CERTIFICATE", cert, true, none, none, none⟩)
     | _ => .error .other
   else if b.oid = oidKeyBag8 then
-    let (_, epki, _) ← opt (tlv b.value)
+    let (_, epki, rest) ← opt (tlv b.value)
+    if !rest.isEmpty then .error .other
     let ec ← opt (children epki)
     match ec with
-    | [(0x30, alg), (0x04, data)] =>
+    | (0x30, alg) :: (0x04, data) :: _ =>
       match pbDecryptFull alg data password with
       | .error _ => .error .other
       | .ok p8 =>
@@ -194,7 +202,7 @@ def decodeBag (b : RawBag) (password : Bytes) : R (Option BagOut) := do
 def readSafe (ci : Bytes) (password : Bytes) : R (List RawBag) := do
   let cc ← opt (children ci)
   let (oid, wrapped) ← match cc with
-    | [(0x06, oid), (0xa0, w)] => pure (oid, w)
+    | (0x06, oid) :: (0xa0, w) :: _ => pure (oid, w)
     | _ => .error .other
   let safeContents ← (if oid = oidData then do
       let (t, d, _) ← opt (tlv wrapped)
@@ -203,11 +211,11 @@ def readSafe (ci : Bytes) (password : Bytes) : R (List RawBag) := do
       let (_, ed, _) ← opt (tlv wrapped)
       let ec ← opt (children ed)
       match ec with
-      | [(0x02, ver), (0x30, eci)] =>
+      | (0x02, ver) :: (0x30, eci) :: _ =>
         if derInt ver ≠ 0 then .error .notImpl else
         let ecc ← opt (children eci)
         match ecc with
-        | [(0x06, _), (0x30, alg), (0x80, data)] => pbDecryptFull alg data password
+        | (0x06, _) :: (0x30, alg) :: (0x80, data) :: _ => pbDecryptFull alg data password
         | _ => .error .other
       | _ => .error .other
     else .error .notImpl)
@@ -249,7 +257,11 @@ def decodeObs (bags : List RawBag) (password : Bytes) : String :=
   | .ok outs =>
     let known := outs.filterMap id
     match known.filter (·.type == "CERTIFICATE"), known.filter (·.type == "PRIVATE-KEY") with
-    | [c], [k] => s!"ok key={toHex (Prim.sha256 k.bytes)} cert={toHex (Prim.sha256 c.bytes)}"
+    | [c], [k] =>
+      -- x509.ParseCertificates must find exactly one certificate: one SEQUENCE and nothing after it
+      match tlv c.bytes with
+      | some (0x30, _, []) => s!"ok key={toHex (Prim.sha256 k.bytes)} cert={toHex (Prim.sha256 c.bytes)}"
+      | _ => "err"
     | _, _ => "err"
 
 /-- pkcs12.ToPEM on the bags, in order: attributes first (errors are plain), then the bag itself -/
